@@ -115,6 +115,13 @@ impl World {
         proc_.process_poll_events_until_timeout(Duration::from_millis(ms), |ev| match ev {
             NetEvent::Connected(ep, ok) => {
                 hist.push(Item::EvConnected(ep.resource_id(), ok));
+                if !ok && armed.iter().any(|a| matches!(a, Armed::ProbeOnDisconnected)) {
+                    // a failed connect is over when it is reported: the endpoint is gone already
+                    let id = ep.resource_id();
+                    hist.push(Item::IsReady(id, ctl.is_ready(id)));
+                    hist.push(Item::Send(id, ctl.send(ep, &[1, 2, 3])));
+                    hist.push(Item::Remove(id, ctl.remove(id)));
+                }
                 for a in armed.clone() {
                     match a {
                         Armed::SendOnConnected if ok => {
